@@ -70,6 +70,7 @@ Definition mt_live (m : mpc) : bool := match m with M_acq | M_chk | M_recv | M_c
 Definition mt_ended (m : mpc) : bool := match m with MNone | MEnded => true | _ => false end.
 Definition sock_open (s : sk) : bool := match s with SOpen => true | _ => false end.
 Definition lock_free g := lk_eqb (lock g) LFree.
+Definition loop_pc (m : mpc) : bool := match m with M_acq | M_chk | M_recv => true | _ => false end.
 
 Section V.
   Variable v : variants.
